@@ -327,7 +327,7 @@ func judge(c Cell, out *Outcome, crashed bool, log string) (violation string, si
 	}
 	errText := out.RunErr + out.ScanErr
 	failed := errText != ""
-	if out.Fired > 500 {
+	if limit := 30 * c.Rows * c.Shards; out.Fired > 500 && out.Fired > limit {
 		return fmt.Sprintf("the failing function was invoked again %d times: retries are not bounded", out.Fired), "unbounded-retries:" + c.Site, true
 	}
 	if out.RowsDiff != "" {
